@@ -307,6 +307,7 @@ struct task {
     sem_t sem;
     int state;
     int yielded;
+    int progressed_in_step;   /* mc_set_progress(1) was called since the task was last scheduled */
     int wait_fd;
     struct pollfd *pfds;
     int npfds;
@@ -500,8 +501,11 @@ void mc_wait_cond(int (*enabled)(void *), void *arg, const char *label)
 
 void mc_set_progress(int progressed)
 {
-    if (tl_task >= 0)
+    if (tl_task >= 0) {
         g_tasks[tl_task].yielded = !progressed;
+        if (progressed)
+            g_tasks[tl_task].progressed_in_step = 1;
+    }
 }
 
 int mc_block_poll(struct pollfd *fds, int nfds, int timeout_ms)
@@ -651,16 +655,22 @@ enum mc_end mc_run(int horizon)
             struct task *t = &g_tasks[ti];
             if (t->yielded)
                 rr = (ti + 1) % g_ntasks;
-            for (int i = 0; i < g_ntasks; i++)
-                if (i != ti)
-                    g_tasks[i].yielded = 0;
             g_cur = ti;
             t->state = T_READY;
+            t->progressed_in_step = 0;
             t->steps++;
             if (g_rec)
                 snprintf(g_rec->cur_task, sizeof g_rec->cur_task, "%s", t->name);
             sem_post(&t->sem);
             sem_wait_nointr(&g_sched_sem);
+            /* the others get a fresh chance only when this step changed something: two tasks that merely
+               wake each other up (each step ends in EAGAIN) must not starve the environment events that
+               could end their wait (Musuvathi-Qadeer fairness; met with two ends spinning on partial TLS
+               records while both are write-stalled) */
+            if (t->progressed_in_step || t->state == T_DONE)
+                for (int i = 0; i < g_ntasks; i++)
+                    if (i != ti)
+                        g_tasks[i].yielded = 0;
         }
     }
     g_running = 0;
